@@ -16,7 +16,7 @@ import (
 )
 
 var ints = []int{math.MinInt, math.MinInt + 1, -2, -1, 0, 1, 2, math.MaxInt - 1, math.MaxInt}
-var strs = sharedStorage([]string{"", "a", "ab", "abc", "b", "A", "é", "aé", "\x00", "a\x00", "ab\x00", "\xff", "a\xff"})
+var strs = sharedStorage([]string{"", "a", "ab", "abc", "b", "A", "é", "aé", "\x00", "a\x00", "ab\x00", "\xff", "a\xff", "\xfe", "\xc3", "\U0001F600", "\uFFFD"})
 
 // sharedStorage adds, for one backing string, every prefix, every suffix and an equal copy in separate storage: a
 // string and its own proper prefix start at the same address and differ, a copy starts elsewhere and is equal.
